@@ -2,7 +2,7 @@
 // (RFC 4648 standard alphabet, padded) of exactly the bytes otherwise.
 // Child module of grep_printer::jsont; fully symbolic byte strings.
 
-const N: usize = 5;
+const N: usize = 4;
 
 fn b64_val(c: u8) -> u8 {
     match c {
